@@ -20,7 +20,7 @@ FUNCTIONS = ["solvor.milp.solve_milp", "solvor.milp._solve_node", "solvor.milp._
 BOUNDS = {
     "quick": "n=2 variables (all-integer and mixed), n=3 binary-style, and n=3 mixed (two integer, one continuous, per-variable upper bounds 1 or 3), constraint rows from {-1,0,1,2} (1-2 general rows, VERIF_SEED-sampled) plus box "
              "rows x_j <= U (U=3, or 1 for the binary family), c from {-2..3}, minimize/maximize; b of the general rows symbolic Ints in -20..20; options: "
-             "heuristics on/off, warm start absent / concrete / symbolic values / wrong length, lns_iterations 0/1, solution_limit 1/2",
+             "heuristics on/off, warm start absent / concrete / symbolic values / wrong length, lns_iterations 0/1, solution_limit 1/2; added families: knapsack-shaped all-binary cells, two-variable binary cells with coefficients -3..5, bound-row patterns whose relaxation can look binary, named anchor cells in every placement of the variable roles, cells that branch (rejection-sampled natively) with symbolic warm-start vectors, tight max_nodes (1..3) and a symbolic simplex pivot budget max_iter in 0..8",
     "thorough": "more sampled (A,c) cells (x8), U=4, 3 general rows",
 }
 OUTSIDE = "unbounded integer boxes; more than 3 variables; float rounding; max_nodes is set to 500 (never reached on the unchanged tree; bounds runaway branching), max_iter default"
